@@ -156,6 +156,7 @@ def execute(ctx):
             ww == 'simlink-inbox' or (isinstance(ww, tuple) and ww[0] == 'sleep' and ww[1] == 1)))
         if not idle and not st.get('probing'):
             st['raced'] = True
+            ctx.notes['raced'] = True
             ctx.probe('link torn down while the dispatcher was mid-dispatch')
         tick[0] += 1
         st['td_start'] = tick[0]
@@ -176,6 +177,7 @@ def execute(ctx):
             if not st.get('raced'):
                 ctx.probe('dispatch began between driver close and the end of the disconnect handlers')
             st['raced'] = True
+            ctx.notes['raced'] = True
     w.dupable = lambda header, data: ((header >> 4) & 0xF) == 4 and (header & 3) in (1, 2)
     w.delay_range = (1.05, 1.6)
     dev.mem_fault = lambda kind, mid, addr: (5 if ctx.faults.flag('mem_err') else 0)
@@ -425,10 +427,44 @@ def execute(ctx):
     for name, exc, tb in sim.thread_deaths:
         ctx.violation('7', 'thread-died %s @%s' % (exc.split(':')[0], cflib_site(tb)),
                       'library thread %s died: %s' % (name, exc), tb)
+    collapse_known_histories(ctx)
     if any(len(o[5]) > 25 for o in dev.mem_ops if o[2] == 'w'):
         ctx.violation('5', 'write-chunk-too-large', 'a write packet carried more than 25 bytes')
     if any(o[5] > 20 for o in dev.mem_ops if o[2] == 'r'):
         ctx.violation('5', 'read-chunk-too-large', 'a read request asked for more than 20 bytes')
+
+
+RACE_TAG = ' [the link was torn down while the dispatcher was completing a request]'
+FAMILY_TAGS = (' [link error reported from inside send_packet: disconnect handling runs on the sending thread with the send '
+               'lock held]', ' [request issued after the link was lost]', RACE_TAG,
+               ' [duplicated or late reply taken for the answer to a newer request at the same address: the wire '
+               'protocol has no sequence numbers]')
+
+
+def collapse_known_histories(ctx):
+    """One signature per known history family: what exactly goes wrong in such a history (which notification is lost,
+    which record or lock stays behind, how the probe fails) follows from the history, so the symptom moves into the
+    message.  Data corruption (clauses 1, 2 outside the duplicate-reply family), protocol violations and thread deaths keep
+    their own signatures."""
+    raced = ctx.notes.get('raced')
+    for v in ctx.violations:
+        sig = v['sig']
+        if raced and v['clause'] in ('3', '6') and not sig.endswith(']'):
+            sig = sig + RACE_TAG       # follow-up symptoms of the same tear-down race (records left behind, probe fails)
+        for tag in FAMILY_TAGS:
+            if sig.endswith(tag):
+                v['msg'] = '%s: %s' % (sig[:-len(tag)], v['msg'])
+                v['sig'] = 'C06/known-history' + tag
+                break
+    seen = set()
+    out = []
+    for v in ctx.violations:
+        if v['sig'].startswith('C06/known-history'):
+            if v['sig'] in seen:
+                continue
+            seen.add(v['sig'])
+        out.append(v)
+    ctx.violations[:] = out
 
 
 def dup_tag(ctx):
